@@ -63,6 +63,11 @@ func (g *G) Expr(t string, d int) string {
 			return g.leaf(t)
 		case 13:
 			return fmt.Sprintf("(+%s)", g.Expr("int", d-1))
+		case 14:
+			if g.NoCalls || g.r.Intn(2) == 0 {
+				return g.leaf(t)
+			}
+			return g.kindCall()
 		default:
 			return g.leaf(t)
 		}
@@ -293,6 +298,25 @@ func (g *G) leaf(t string) string {
 var genTypes = []string{"int", "float", "string", "bool", "ints", "strs", "anys", "any"}
 
 
+// kindCall: an integer literal (or literal arithmetic) handed to a parameter of another numeric kind - the checker
+// retypes the literal, the compiler pushes it at that kind, the optimizer must leave it alone.
+func (g *G) kindCall() string {
+	f := g.pick("K8", "K16", "K32", "KU", "KU8", "KU16", "KU32", "KU64", "KF32", "I64f", "Half")
+	n := g.pick("0", "1", "2", "3", "7", "100")
+	switch g.r.Intn(6) {
+	case 0:
+		return fmt.Sprintf("%s(%s + %s)", f, n, g.pick("1", "2"))
+	case 1:
+		return fmt.Sprintf("%s(-%s)", f, n)
+	case 2:
+		return fmt.Sprintf("%s(%s * %s)", f, n, g.pick("2", "3"))
+	case 3:
+		return fmt.Sprintf("%s(I)", f)
+	default:
+		return fmt.Sprintf("%s(%s)", f, n)
+	}
+}
+
 // ConstSoup builds an expression that puts many *similar but different* constants into one program: the same
 // number at several kinds (typed call arguments), strings that spell regexp patterns or numbers, folded
 // []int / []string literals and constant ranges with equal end points, lengths or printed forms.  The constant
@@ -301,7 +325,7 @@ var genTypes = []string{"int", "float", "string", "bool", "ints", "strs", "anys"
 func (g *G) ConstSoup() string {
 	n := g.pick("1", "2", "3", "7", "10")
 	atoms := []string{
-		n, n + ".0", `"` + n + `"`, "I64f(" + n + ")", "Half(" + n + ")", "Inc(" + n + ")", "Id(" + n + ")", "(" + n + " + 0)",
+		n, n + ".0", `"` + n + `"`, "I64f(" + n + ")", "Half(" + n + ")", "K8(" + n + ")", "K16(" + n + ")", "K32(" + n + ")", "KU(" + n + ")", "KU8(" + n + ")", "KU16(" + n + ")", "KU32(" + n + ")", "KU64(" + n + ")", "KF32(" + n + ")", "Inc(" + n + ")", "Id(" + n + ")", "(" + n + " + 0)",
 		`"^a"`, `(S matches "^a")`, `"lo"`, `(T matches "lo")`, `"a b"`, `"a"`, `"b c"`,
 		"len(1.." + n + ")", "len([1, " + n + "])", "len([1, 9, 9, " + n + "])", "len([\"1\", \"" + n + "\"])",
 		"len([\"a b\", \"c\"])", "len([\"a\", \"b c\"])", "[\"a b\", \"c\"][1]", "[\"a\", \"b c\"][1]",
